@@ -8,6 +8,7 @@ ADDED = {
  "C02_3": "scenario `c02_many` (up to 260 deadlines in one instant)",
  "C04_1": "scenario `c04_dead` (guessed ids of requests that died before the wire)",
  "C04_2": "`c04_prewire` registered in the plan",
+ "C04_3": "scenario `c04_gone` (reply to a requester that has gone away; before it the catch was 1 run in 3000 and missed by `bin/seedcheck`)",
  "C07_3": "scenario `c07_bp` (respondent contexts parked behind a busy connection)",
  "C08_3": "scenario `c08_race` (simultaneous connects through several endpoints)",
  "C10_1": "`Bounded` watchdog guard around every close call (the hang used to be *inconclusive*)",
